@@ -322,6 +322,11 @@ class datetime(_dt, FieldType):
             obj = obj.replace(tzinfo=UTC)
         return obj
 
+    def replace(self, *args, **kwargs):
+        obj = _dt.replace(self, *args, **kwargs)
+        # CPython <= 3.12 builds the result in C without calling __new__: keep "naive means UTC"
+        return obj if obj.tzinfo is not None else _dt.replace(obj, tzinfo=UTC)
+
     def _pack(self):
         return self
 
